@@ -2,6 +2,7 @@ package checks
 
 import (
 	"bytes"
+	"encoding/base64"
 	"fmt"
 	"math/rand"
 	"reflect"
@@ -346,34 +347,88 @@ func c09OnPath(c *fw.Case) (o fw.Outcome) {
 		ue := tglib.NewRanUeContext("imsi-"+imsi, 1, uint8(r.Intn(3)), uint8(1+r.Intn(2)))
 		suciB := append([]byte{0x01}, rbytes(r, 7+r.Intn(6))...)
 		suci := nasType.MobileIdentity5GS{Len: uint16(len(suciB)), Buffer: suciB}
+		// every argument over the whole range its IE allows (TS 24.501 9.11.3): a constructor is right only if what the
+		// caller hands over is what the independent parser reads back, also at the longest legal value of each IE
 		cap := ue.GetUESecurityCapability()
+		if r.Intn(3) == 0 {
+			n := 2 + r.Intn(7)
+			cap = &nasType.UESecurityCapability{Iei: nasMessage.RegistrationRequestUESecurityCapabilityType, Len: uint8(n), Buffer: cornerBytes(r, n)}
+		}
 		var c5 *nasType.Capability5GMM
-		if r.Intn(2) == 0 {
-			c5 = ue.Get5GMMCapability()
+		var c5want []byte
+		switch r.Intn(3) {
+		case 0:
+			c5, c5want = ue.Get5GMMCapability(), []byte{0x07}
+		case 1:
+			n := 1 + c.Idx/9%13 // every legal length 1..13 in turn
+			c5 = nasType.NewCapability5GMM(nasMessage.RegistrationRequestCapability5GMMType)
+			c5want = cornerBytes(r, n)
+			c5.SetLen(uint8(n))
+			copy(c5.Octet[:], c5want)
+		}
+		var nssai *nasType.RequestedNSSAI
+		if r.Intn(3) == 0 {
+			n := []int{2, 3, 5, 6, 9, 40, 71, 72}[r.Intn(8)]
+			nssai = &nasType.RequestedNSSAI{Iei: nasMessage.RegistrationRequestRequestedNSSAIType, Len: uint8(n), Buffer: cornerBytes(r, n)}
+		}
+		var uds *nasType.UplinkDataStatus
+		if r.Intn(3) == 0 {
+			n := []int{2, 2, 3, 32}[r.Intn(4)]
+			uds = &nasType.UplinkDataStatus{Iei: nasMessage.RegistrationRequestUplinkDataStatusType, Len: uint8(n), Buffer: cornerBytes(r, n)}
 		}
 		regType := uint8(1 + r.Intn(4))
 		var cont []byte
-		if r.Intn(2) == 0 {
+		switch r.Intn(4) {
+		case 0:
 			cont = rbytes(r, 1+r.Intn(60))
+		case 1:
+			cont = blockyBytes(r, []int{127, 128, 255, 256, 257, 1000, 2000, 4095}[r.Intn(8)])
 		}
-		b = nasTestpacket.GetRegistrationRequest(regType, suci, nil, cap, c5, cont, nil)
+		b = nasTestpacket.GetRegistrationRequest(regType, suci, nssai, cap, c5, cont, uds)
 		exps = func(p *refnas.Parsed) []expect {
 			e := []expect{
 				{"5GS registration type | ngKSI", p.MandByName("NgksiAndRegistrationType5GS"), []byte{0x70 | 0x08 | regType}},
 				{"5GS mobile identity", p.MandByName("MobileIdentity5GS"), suciB},
 				{"UE security capability (2E)", must(p, "UESecurityCapability"), cap.Buffer},
 			}
-			if c5 != nil {
-				e = append(e, expect{"5GMM capability (10)", must(p, "Capability5GMM"), []byte{0x07}})
+			opt := func(name, label string, want []byte, present bool) {
+				v, ok := p.Get(name)
+				switch {
+				case present:
+					e = append(e, expect{fmt.Sprintf("%s of %d octets", label, len(want)), v, want})
+				case ok:
+					e = append(e, expect{label + " that the caller did not supply", v, nil})
+				}
 			}
-			if cont != nil {
-				e = append(e, expect{"NAS message container (71)", must(p, "NASMessageContainer"), cont})
+			opt("Capability5GMM", "5GMM capability (10)", c5want, c5 != nil)
+			opt("NASMessageContainer", "NAS message container (71)", cont, cont != nil)
+			if nssai != nil {
+				opt("RequestedNSSAI", "requested NSSAI (2F)", nssai.Buffer, true)
+			} else {
+				opt("RequestedNSSAI", "requested NSSAI (2F)", nil, false)
+			}
+			if uds != nil {
+				opt("UplinkDataStatus", "uplink data status (40)", uds.Buffer, true)
+			} else {
+				opt("UplinkDataStatus", "uplink data status (40)", nil, false)
 			}
 			return e
 		}
 	case 1: // Authentication Response
 		label = "AuthenticationResponse"
-		res := rbytes(r, 16)
+		res := cornerBytes(r, 16)
+		if r.Intn(4) == 0 { // the EAP-AKA' flavour: no RES*, an EAP message handed over in base64
+			eap := blockyBytes(r, []int{4, 5, 40, 255, 256, 1000, 1500}[r.Intn(7)])
+			b = nasTestpacket.GetAuthenticationResponse(nil, base64.StdEncoding.EncodeToString(eap))
+			exps = func(p *refnas.Parsed) []expect {
+				e := []expect{{"EAP message (78)", must(p, "EAPMessage"), eap}}
+				if v, ok := p.Get("AuthenticationResponseParameter"); ok {
+					e = append(e, expect{"authentication response parameter that was not supplied", v, nil})
+				}
+				return e
+			}
+			break
+		}
 		b = nasTestpacket.GetAuthenticationResponse(res, "")
 		exps = func(p *refnas.Parsed) []expect {
 			return []expect{{"authentication response parameter (2D)", must(p, "AuthenticationResponseParameter"), res}}
@@ -381,6 +436,9 @@ func c09OnPath(c *fw.Case) (o fw.Outcome) {
 	case 2: // Security Mode Complete
 		label = "SecurityModeComplete"
 		cont := rbytes(r, 1+r.Intn(80))
+		if r.Intn(3) == 0 {
+			cont = blockyBytes(r, []int{127, 128, 255, 256, 257, 1000, 2000, 4095}[r.Intn(8)])
+		}
 		b = nasTestpacket.GetSecurityModeComplete(cont)
 		exps = func(p *refnas.Parsed) []expect {
 			e := []expect{{"NAS message container (71)", must(p, "NASMessageContainer"), cont}}
@@ -468,8 +526,21 @@ func c09OnPath(c *fw.Case) (o fw.Outcome) {
 		}
 	case 7: // Registration Complete
 		label = "RegistrationComplete"
-		b = nasTestpacket.GetRegistrationComplete(nil)
-		exps = func(p *refnas.Parsed) []expect { return nil }
+		var sor []byte
+		if r.Intn(2) == 0 {
+			sor = cornerBytes(r, 17) // 8.2.8: a type 6 IE of exactly 20 octets in this message
+		}
+		b = nasTestpacket.GetRegistrationComplete(sor)
+		exps = func(p *refnas.Parsed) []expect {
+			v, ok := p.Get("SORTransparentContainer")
+			if sor != nil {
+				return []expect{{"SOR transparent container (73)", v, sor}}
+			}
+			if ok {
+				return []expect{{"SOR transparent container that was not supplied", v, nil}}
+			}
+			return nil
+		}
 	default: // PDU session establishment request alone
 		label = "PDUSessionEstablishmentRequest"
 		psi := uint8(r.Intn(256))
